@@ -8,6 +8,13 @@ output (ANSI, plain, ANSI section, quiet variants), and every `stream.write` cal
 The Lean model (`Clikit.Progress.run`) gets the same configuration, operations and clock readings
 and must produce the same writes, the same getters and the same exception classes.
 
+Setters in the MIDDLE of a run: besides the operations, a history may call the public configuration
+setters of the running bar (`SETTERS`: min_seconds_between_redraws, max_seconds_between_redraws,
+set_redraw_frequency, set_bar_width, the three character setters, set_format) between any two calls.  The
+model runs them as `Progress.runC` (every call under the configuration in force); the oracle judges every
+frame and every redraw against what is configured AT THAT MOMENT - in particular the throttle against the
+minimum interval configured at the time of each advance.
+
 Oracle: the property statement itself, evaluated on the implementation's writes with a small
 terminal emulator (CR, LF, ESC[nA, ESC[0J, ESC[2K, SGR) and a regex built from the format in use.
 """
@@ -22,7 +29,9 @@ TECHNIQUE = ("Lean 4 model of ProgressBar (template scanner, redraw decision, AN
              "clock readings + differential execution against the real class under a virtual clock + the "
              "property statement as an oracle on a terminal emulator")
 LEVEL_TEXT = ("Proved in Lean for every history of start/advance/set_progress/display/clear/finish/set_message and "
-              "every sequence of clock readings: step bounds, bar width, exact percentage, the throttling rule "
+              "every sequence of clock readings (and, for step bounds, exact percentage, bar width, throttling, drawing at the "
+              "maximum and quietness, also for histories in which the configuration setters are called in the middle of the "
+              "run - *_current_config: each statement with the configuration in force at the call): step bounds, bar width, exact percentage, the throttling rule "
               "(a redraw caused by advancing to a step other than the maximum comes at least the minimum interval "
               "after the previous write), reaching the maximum always draws, the last frame after finish shows "
               "current = max, the ANSI line equals the latest frame, plain frames stand on their own lines, a quiet "
@@ -41,11 +50,19 @@ REQUIRED_THEOREMS = ["Clikit.Props.C16." + n for n in (
     "finish_final", "Counter.c16_d18b_old", "ansi_line_latest", "ansi_line_latest_events",
     "plain_own_line", "plain_single_lines", "quiet_nothing", "set_progress_clamps",
     "hyps_decide", "bar_width_dec", "finish_final_dec", "ansi_line_latest_dec", "plain_single_lines_dec",
-    "default_chars_ok", "run_with_message")]
+    "default_chars_ok", "run_with_message",
+    "throttle_current_config", "throttle_spacing_current_config", "min_interval_setter",
+    "max_always_draws_current_config", "quiet_nothing_current_config", "frames_truthful_current_config",
+    "bar_width_current_config", "setter_silent", "run_is_runC", "deciders_without_setters")]
 RULE = ("exhaustive small scope: every call sequence up to length 4 over a pool of 8 (quick) / 11 (thorough) public "
         "calls with clock advances (start, advance(1) after 0 / 1/64 / 1/4 s [/ 2 s], advance(3) after 1/16 s, "
         "set_progress(max), display, clear, finish, set_message), thorough also lengths 5-6 over a 6-call pool and "
-        "7-8 over a 4-call pool, x {ANSI, plain, section} x min interval {0, 1/8 s} x maximum {0, 3}; random: "
+        "7-8 over a 4-call pool, x {ANSI, plain, section} x min interval {0, 1/8 s} x maximum {0, 3}; setters in the "
+        "middle of a run: every sequence up to length 4 over {start, advance(1) after 1/64 s / 1/4 s, "
+        "min_seconds_between_redraws(2 s), min_seconds_between_redraws(1/64 s)} and up to length 3 over {start, "
+        "advance(1) after 1/4 s, set_bar_width, set_format, set_redraw_frequency, max_seconds_between_redraws} x {ANSI, "
+        "plain, section} x min interval 1/8 s x maximum {0, 3}; in half of the random histories about every sixth call "
+        "is one of the eight public setters; random: "
         "histories up to length 60 over maxima {0,1,3,10,50,200}, bar widths 1..40, default formats at the four "
         "verbosities, custom tag-free formats (also multi-line, unknown placeholders, width specs), messages of "
         "varying length, clock advances {0, 1/64, 1/16, 1/4, 2 s} x ANSI/plain/section/plain-section x quiet; a "
@@ -62,6 +79,9 @@ TRUSTED_BASE = [
     "backslash; checked implicitly by the byte comparison)",
 ]
 ASSUMPTIONS = [
+    "setters called in the middle of a run take effect from the next call on; min_seconds_between_redraws(x) with x <= 0 "
+    "is ignored by the API (the interval in force stays); a set_format() that changes the NUMBER OF LINES of the format "
+    "while a frame stands on an overwriting output is excluded from the oracle (pending finding, see report)",
     "one clock reading per public call (the virtual clock moves only between calls); real-clock jitter inside a call "
     "and preemption inside a stream write are outside the model",
     "CPython's binary64 division / multiplication (percent, bar offset, redraw period, %estimated%) equals the model's "
@@ -87,6 +107,11 @@ EFFECTIVE = {"mixed_plain": "plain", "mixed_ansi": "ansi", "plain_capable": "pla
 
 def _eff(kind):
     return EFFECTIVE.get(kind, kind)
+# public configuration setters that may be called in the middle of a run: op name -> what the oracle's view changes
+SETTERS = {"set_min": "min_ticks", "set_max_interval": "max_ticks", "set_redraw": "redraw", "set_bar_width": "bar_width",
+           "set_bar_char": "bar_char", "set_empty_char": "empty_char", "set_progress_char": "progress_char",
+           "set_format": "format"}
+TEXT_OPS = ("set_message", "set_format", "set_bar_char", "set_empty_char", "set_progress_char")
 VERBOSITIES = [0, 1, 2, 4]
 BASE_FORMAT = {0: "normal", 1: "verbose", 2: "very_verbose", 4: "debug"}
 
@@ -169,6 +194,22 @@ def _exhaustive_cases(tier):
                            _product_cases(CONFIGS, _core_pool, (5, 6)))
 
 
+def _throttle_setter_pool(mx):
+    return [_op("start"), _op("advance", 1, 1), _op("advance", 1, 16), _op("set_min", 128, 0), _op("set_min", 1, 0)]
+
+
+def _other_setter_pool(mx):
+    return [_op("start"), _op("advance", 1, 16), _op("set_bar_width", 10), _op("set_format", "%current% [%bar%] %percent%%"),
+            _op("set_redraw", 2), _op("set_max_interval", 4)]
+
+
+def _setter_cases(tier):
+    """setters called in the middle of a run"""
+    configs = [(kind, 8, mx) for kind in ("ansi", "plain", "section") for mx in (0, 3)]
+    return itertools.chain(_product_cases(configs, _throttle_setter_pool, range(2, 5)),
+                           _product_cases(configs, _other_setter_pool, range(2, 4 if tier == "quick" else 5)))
+
+
 def _long_exhaustive_cases():
     """thorough only: lengths 7 and 8 over the 4-call pool, throttling configurations"""
     return _product_cases([c for c in CONFIGS if c[1] == 8], _tiny_pool, (7, 8))
@@ -220,12 +261,37 @@ def _random_case(rng, tier):
             ops.append(_op("start", rng.choice([None, None] + MAXIMA + [-1]), dt))
         else:
             ops.append(_op("set_message", _rand_message(rng), dt))
+    if rng.random() < 0.5:
+        # setters called in the middle of the run: about every sixth call
+        for i in range(len(ops)):
+            if rng.random() < 0.17:
+                ops[i] = _random_setter(rng, ops[i]["dt"])
     case["ops"] = ops
     return case
 
 
+def _random_setter(rng, dt):
+    name = rng.choice(["set_min", "set_min", "set_min", "set_max_interval", "set_redraw", "set_bar_width", "set_bar_char",
+                       "set_empty_char", "set_progress_char", "set_format"])
+    if name == "set_min":
+        arg = rng.choice([1, 4, 8, 16, 64, 128, 256, 0])
+    elif name == "set_max_interval":
+        arg = rng.choice([4, 32, 64, 256])
+    elif name == "set_redraw":
+        arg = rng.choice([1, 2, 5, 0])
+    elif name == "set_bar_width":
+        arg = rng.randint(1, 40)
+    elif name == "set_format":
+        arg = rng.choice(CUSTOM_FORMATS)
+    else:
+        arg = rng.choice(BAR_CHARS) if rng.random() < 0.85 else rng.choice(["", "=>", ".."])
+    return _op(name, arg, dt)
+
+
 def generate(tier, rng):
     for c in _exhaustive_cases(tier):
+        yield c
+    for c in _setter_cases(tier):
         yield c
     n = 10000 if tier == "quick" else 40000
     for _ in range(n):
@@ -344,6 +410,22 @@ def run_impl(case):
                     pb.finish()
                 elif name == "set_message":
                     pb.set_message(op["arg"])
+                elif name == "set_min":
+                    pb.min_seconds_between_redraws(op["arg"] / float(TICK))
+                elif name == "set_max_interval":
+                    pb.max_seconds_between_redraws(op["arg"] / float(TICK))
+                elif name == "set_redraw":
+                    pb.set_redraw_frequency(op["arg"])
+                elif name == "set_bar_width":
+                    pb.set_bar_width(op["arg"])
+                elif name == "set_bar_char":
+                    pb.set_bar_character(op["arg"])
+                elif name == "set_empty_char":
+                    pb.set_empty_bar_character(op["arg"])
+                elif name == "set_progress_char":
+                    pb.set_progress_character(op["arg"])
+                elif name == "set_format":
+                    pb.set_format(op["arg"])
                 else:
                     raise AssertionError("unknown op " + name)
             except AssertionError:
@@ -367,7 +449,7 @@ def _hyp_of(pb, case):
     own = pb.bar_char                      # None: derived from the maximum ('=' or the empty-bar character)
     fmt = pb._internal_format
     texts = ([case["message"]] if case["message"] is not None else []) + \
-            [o["arg"] for o in case["ops"] if o["op"] == "set_message"]
+            [o["arg"] for o in case["ops"] if o["op"] in TEXT_OPS]
     return {"single": all(len(c) == 1 for c in chars) and (own is None or len(own) == 1),
             "bar_width_ok": 0 <= pb.get_bar_width() < 2 ** 52,
             "clean_cfg": all(_clean(c) for c in chars) and (own is None or _clean(own)) and (fmt is None or _clean(fmt)),
@@ -564,6 +646,10 @@ def _check_frame(case, text, message, ev, hyp=None):
     return None, complaint
 
 
+def _line_count(view):
+    return max(f.count("\n") for f in _candidates(view))
+
+
 def oracle(case, obs):
     kind = _eff(case["kind"])
     overwrite = kind in ("ansi", "section")
@@ -574,12 +660,32 @@ def oracle(case, obs):
     last_write_t = None    # clock value of the latest call that wrote anything
     if any(w for w in obs.get("setup_writes", [])):
         return "bytes written before the first call"
+    view = dict(case)      # what is configured at the moment of each call (setters may be called in the middle of a run)
+    hyp = obs.get("hyp")
     for i, (op, ev) in enumerate(zip(case["ops"], obs["events"])):
         name = op["op"]
         where = "call %d %s(%s)" % (i, name, "" if op["arg"] is None else repr(op["arg"]))
         if name == "set_message" and ev["err"] is None:
             message = op["arg"]
         data = "".join(ev["w"])
+        if name in SETTERS:
+            if ev["err"] is not None:
+                return "%s: the setter raised %s" % (where, ev["err"])
+            if data:
+                return "%s: a setter wrote %r" % (where, data[:60])
+            if name == "set_format" and overwrite and last_write_t is not None and \
+                    _line_count(view) != _line_count(dict(view, format=op["arg"])):
+                # pending finding, see report: a format with another number of lines set after the bar has written
+                # (a frame, or the blank lines of clear(), stand on the output with the old number of lines)
+                return None
+            if name == "set_min":
+                if op["arg"] > 0:           # the API ignores a non-positive interval
+                    view["min_ticks"] = op["arg"]
+            else:
+                view[SETTERS[name]] = op["arg"]
+            if name in ("set_bar_width", "set_bar_char", "set_empty_char", "set_progress_char"):
+                hyp = None      # the hypotheses read off the bar before the run no longer describe it
+            continue
         if case["quiet"]:
             if data:
                 return "%s: a quiet output received %r" % (where, data[:60])
@@ -598,7 +704,7 @@ def oracle(case, obs):
                         return "%s: the line is not blank after clear(): %r" % (where, screen[:100])
                     last = None
                 else:
-                    parsed, bad = _check_frame(case, screen, message, ev, obs.get("hyp"))
+                    parsed, bad = _check_frame(view, screen, message, ev, hyp)
                     if bad:
                         return "%s: the terminal shows %r which %s" % (where, screen[:120], bad)
                     last, drew = parsed, True
@@ -611,7 +717,7 @@ def oracle(case, obs):
                 ctl = [ch for ch in body if (ord(ch) < 32 and ch != "\n") or ch == "\x7f"]
                 if ctl:
                     return "%s: control code %r on a plain output" % (where, ctl[0])
-                parsed, bad = _check_frame(case, body, message, ev, obs.get("hyp"))
+                parsed, bad = _check_frame(view, body, message, ev, hyp)
                 if bad:
                     return "%s: the line %r %s" % (where, body[:120], bad)
                 plain_out += data
@@ -623,9 +729,9 @@ def oracle(case, obs):
         # throttling: a redraw caused by advancing to a step other than the maximum comes at least the
         # minimum interval after the previous write
         if drew and name in ("advance", "set_progress") and ev["progress"] != ev["max"] and last_write_t is not None:
-            if ev["t"] - last_write_t < case["min_ticks"]:
-                return "%s: redrawn %d ticks after the previous write, minimum interval %d ticks" % (
-                    where, ev["t"] - last_write_t, case["min_ticks"])
+            if ev["t"] - last_write_t < view["min_ticks"]:
+                return "%s: redrawn %d ticks after the previous write, minimum interval configured at this call %d ticks" % (
+                    where, ev["t"] - last_write_t, view["min_ticks"])
         # reaching the maximum always draws
         if name in ("advance", "set_progress") and ev["max"] > 0 and ev["progress"] == ev["max"] and not drew:
             return "%s: reached the maximum %d without drawing" % (where, ev["max"])
@@ -753,11 +859,14 @@ def neighbours(case):
                 yield c
         if isinstance(o["arg"], int):
             for d in (-1, 1):
+                if o["op"] in SETTERS and o["arg"] + d < 1:
+                    continue
                 c = dict(case)
                 c["ops"] = ops[:i] + [dict(o, arg=o["arg"] + d)] + ops[i + 1:]
                 yield c
     for i in range(len(ops) + 1):
-        for extra in (_op("display"), _op("advance", 1, 0), _op("finish"), _op("set_message", "a considerably longer message")):
+        for extra in (_op("display"), _op("advance", 1, 0), _op("finish"), _op("set_message", "a considerably longer message"),
+                      _op("set_min", 128), _op("set_min", 1), _op("set_bar_width", 7)):
             c = dict(case)
             c["ops"] = ops[:i] + [extra] + ops[i:]
             yield c
